@@ -37,10 +37,10 @@ func init() {
 const (
 	kfLineSyntax = "C18-wb-line-syntax"
 	kfEscaping   = "C18-wb-escaping"
-	// the library's parser terminates the process (log.Fatal) when the file is not there: while this
-	// is listed no history lets the file vanish between a reload's stat and its read, and no
-	// write-back is asked for while the file is away (witness kf_vanish, in a child process)
-	kfReadFatal = "C18-read-fatal"
+	// C18-read-fatal (fixed, 61ee00b): the library's parser terminated the process (log.Fatal) when
+	// the file was not there.  The histories let the file vanish between a reload's stat and its
+	// read and ask for write-backs while the file is away; kf_vanish is the fixed witness (in a
+	// child process: on a tree without the repair the child dies).
 )
 
 func hasKF(c *core.Ctx, id string) bool {
@@ -133,7 +133,6 @@ type world struct {
 	gone      bool
 	everGone  bool
 	startGone bool
-	noFatal   bool // the parser does not terminate the process on a missing file (kfReadFatal not listed)
 }
 
 func newWorld(c *core.Ctx, t *core.Trace, r *rand.Rand) *world {
@@ -142,7 +141,7 @@ func newWorld(c *core.Ctx, t *core.Trace, r *rand.Rand) *world {
 		panic(err)
 	}
 	return &world{c: c, t: t, r: r, dir: dir, home: dir, layout: "plain", path: filepath.Join(dir, "whatap.conf"), seen: map[string][]string{}, eol: "\n", final: true,
-		env: map[string]string{}, noFatal: !hasKF(c, kfReadFatal)}
+		env: map[string]string{}}
 }
 
 func (w *world) done() {
@@ -871,9 +870,6 @@ func (w *world) setValues(kv map[string]string) {
 	}
 	if w.gone {
 		// a write-back while the file is away: its read fails and nothing is written
-		if !w.noFatal {
-			return
-		}
 		if msg := core.Guard(func() { w.conf.SetValues(&m) }); msg != "" {
 			w.t.Emit(core.Ev{"ev": "Panic", "in": "SetValues", "msg": msg})
 			return
